@@ -937,10 +937,10 @@ def judge_svdopt(inp, obs, lr):
 
 CLAUSES = [
     Clause("gs_corr", "corr", gen_gs, run_gs, judge_gs, lean=lean_gs, site="utils.indefinite_orthogonalize",
-           budget={"quick": 240, "thorough": 4000},
+           budget={"quick": 160, "thorough": 4000},
            what="indefinite_orthogonalize(QᵀDQ, rational rows) by value vs the Lean Gram–Schmidt over ℚ (unnormalised rows and square-norms exact, normalised in float); signatures p+q ≤ 6, batch shapes, 1-d input"),
     Clause("find_isometry_corr", "corr", gen_fi, run_fi, judge_fi, lean=lean_fi, site="utils.find_isometry",
-           budget={"quick": 200, "thorough": 3000},
+           budget={"quick": 110, "thorough": 3000},
            what="find_isometry with the kernel basis captured from the implementation: Lean runs gs(partial) ++ gs(ker) exactly on it (by value), evaluates the kernel contract and M F Mᵀ − diag(±1) exactly; force_oriented"),
     Clause("diag_corr", "corr", gen_diag, run_diag, judge_diag, lean=lean_diag, site="utils.diagonalize_form",
            budget={"quick": 240, "thorough": 4000},
